@@ -37,6 +37,8 @@ pub enum Fault {
     ReadErr { kind: u8, sticky: bool },
     ShortReads { cycle: Vec<u32> },
     Interrupts { at: Vec<u16> },
+    /// short reads and, after every `every - 1` calls, an Interrupted: the two legal behaviours meet at every place
+    ShortInterrupts { cycle: Vec<u32>, every: u8 },
     // writer side
     ShortWrites { cycle: Vec<u32> },
     WInterrupts { at: Vec<u16> },
@@ -54,9 +56,14 @@ pub struct Case {
     /// > 0: the LZMA2 / LZIP stream is read with the multi-threaded reader and this many workers (real threads)
     #[serde(default)]
     pub mt_workers: u8,
+    /// XZ reader faults: the file consists of two streams (the two halves of the data) with 0 / 4 / 8 bytes of stream
+    /// padding between them and is read with multi-stream decoding enabled
+    #[serde(default)]
+    pub xz_multi: bool,
 }
 
 thread_local! {
+    static XZ_MULTI: std::cell::Cell<bool> = const { std::cell::Cell::new(false) };
     static MT_WORKERS: std::cell::Cell<u8> = const { std::cell::Cell::new(0) };
 }
 
@@ -104,6 +111,7 @@ fn target_strategy(family: u32) -> BoxedStrategy<Target> {
 fn fault_strategy(reader: bool) -> BoxedStrategy<Fault> {
     let cyc = proptest::collection::vec(prop_oneof![3 => Just(1u32), 2 => 1u32..8, 1 => 1u32..5000], 1..5);
     let at = proptest::collection::vec(0u16..1000, 1..6);
+    let cyc2 = proptest::collection::vec(prop_oneof![3 => Just(1u32), 2 => 1u32..8, 1 => 1u32..5000], 1..5);
     if reader {
         prop_oneof![
             4 => Just(Fault::Truncate),
@@ -111,6 +119,7 @@ fn fault_strategy(reader: bool) -> BoxedStrategy<Fault> {
             4 => (0u8..4, any::<bool>()).prop_map(|(kind, sticky)| Fault::ReadErr { kind, sticky }),
             2 => cyc.prop_map(|cycle| Fault::ShortReads { cycle }),
             2 => at.prop_map(|at| Fault::Interrupts { at }),
+            2 => (cyc2, 2u8..6).prop_map(|(cycle, every)| Fault::ShortInterrupts { cycle, every }),
         ]
         .boxed()
     } else {
@@ -226,7 +235,27 @@ impl Target {
         }
     }
 
+    /// two XZ streams (first / second half of the data) with stream padding in between; returns the file and the
+    /// offsets at which a cut leaves a complete shorter file, with the number of bytes that file holds
+    fn build_two_streams(&self, data: &[u8]) -> Result<(Vec<u8>, Vec<(usize, usize)>), Failure> {
+        let half = data.len() / 2;
+        let mut s = self.build_one(&data[..half])?;
+        let first = s.len();
+        let pad = (data.len() % 3) * 4;
+        s.resize(first + pad, 0);
+        s.extend_from_slice(&self.build_one(&data[half..])?);
+        let bounds = (0..=pad).step_by(4).map(|p| (first + p, half)).collect();
+        Ok((s, bounds))
+    }
+
     fn build(&self, data: &[u8]) -> Result<Vec<u8>, Failure> {
+        if matches!(self, Target::Xz(_)) && XZ_MULTI.with(|c| c.get()) {
+            return self.build_two_streams(data).map(|(s, _)| s);
+        }
+        self.build_one(data)
+    }
+
+    fn build_one(&self, data: &[u8]) -> Result<Vec<u8>, Failure> {
         let (w, out, _) = FaultWriter::new(WriteScript::default());
         let r = no_panic("build", || self.write_to(w, data, &Plan::All, false))?;
         r.map_err(|e| Failure::new("harness:build", e.to_string()))?;
@@ -272,7 +301,7 @@ impl Target {
                 }
             },
             Target::Xz(_) => {
-                let mut r = XZReader::new(src, false);
+                let mut r = XZReader::new(src, XZ_MULTI.with(|c| c.get()));
                 read_all(&mut r, sizes, cap)
             }
             Target::Lzip(_) => {
@@ -335,17 +364,19 @@ impl Property for C05 {
             plan_strategy(),
             read_sizes_strategy(),
             prop_oneof![1 => Just(0u8), 1 => 1u8..=4],
+            any::<bool>(),
         )
-            .prop_map(move |(data, target, fault, plan, sizes, mt)| {
+            .prop_map(move |(data, target, fault, plan, sizes, mt, xz_multi)| {
                 let plan = if matches!(target, Target::Bcj { .. }) { Plan::All } else { plan };
                 let mt_capable = matches!(target, Target::Lzip(_) | Target::Lzma { framing: Framing::Lzma2 { .. }, .. });
                 Case {
                     data,
-                    target,
                     fault,
                     plan,
                     sizes,
                     mt_workers: if reader && mt_capable && !cfg!(lzma_rust2_verif_shuttle) { mt } else { 0 },
+                    xz_multi: reader && xz_multi && matches!(target, Target::Xz(_)),
+                    target,
                 }
             })
             .boxed()
@@ -360,7 +391,7 @@ impl Property for C05 {
     }
 
     fn rule() -> &'static str {
-        "case = (small input, reader/writer target, fault family); inside a case the fault points are ENUMERATED: every truncation point of the stream (all of them up to 4 KiB, 256 sampled positions beyond), every read-call / write-call index the clean run makes (all up to 400, sampled beyond) for injected errors of four kinds, short-read/short-write cycles, Interrupted at generated call positions. Oracles: truncation => Err, or Ok with exactly the original and only if the clean run never needed the missing bytes (cut at an LZIP member boundary => exactly the complete members); injected read error that was reached => Err of the same kind; short reads / Interrupted => decoded bytes identical; short writes / Interrupted on the sink => sink bytes identical to the clean run; sink error reached => some write/flush/finish returns Err. Non-trivial = fault position strictly inside the stream / reached; distinct = (stream hash, fault kind, position). evaluations counts fault points."
+        "case = (small input, reader/writer target, fault family); inside a case the fault points are ENUMERATED: every truncation point of the stream (all of them up to 4 KiB, 256 sampled positions beyond), every read-call / write-call index the clean run makes (all up to 400, sampled beyond) for injected errors of four kinds, short-read/short-write cycles, Interrupted at generated call positions, short reads combined with an Interrupted every 2-5 calls; half of the XZ reader cases use a file of two streams with stream padding, read with multi-stream decoding. Oracles: truncation => Err, or Ok with exactly the original and only if the clean run never needed the missing bytes (cut at an LZIP member boundary or at the end of the first XZ stream / whole words of its padding => exactly the complete members / streams); injected read error that was reached => Err of the same kind; short reads / Interrupted => decoded bytes identical; short writes / Interrupted on the sink => sink bytes identical to the clean run; sink error reached => some write/flush/finish returns Err. Non-trivial = fault position strictly inside the stream / reached; distinct = (stream hash, fault kind, position). evaluations counts fault points."
     }
 
     fn floors(_tier: Tier) -> Vec<(&'static str, f64)> {
@@ -369,6 +400,8 @@ impl Property for C05 {
             ("read_err", 8.0),
             ("short_reads", 4.0),
             ("interrupts", 4.0),
+            ("short_reads_and_interrupts", 3.0),
+            ("xz_two_streams", 3.0),
             ("writer", 20.0),
             ("xz", 10.0),
             ("lzip", 5.0),
@@ -400,11 +433,13 @@ impl Property for C05 {
         let t = &case.target;
         obs.class(t.name());
         MT_WORKERS.with(|c| c.set(case.mt_workers));
+        XZ_MULTI.with(|c| c.set(case.xz_multi));
         obs.class_if(case.mt_workers > 0, "mt_reader");
+        obs.class_if(case.xz_multi, "xz_two_streams");
         let cap = data.len() + (1 << 20);
         let kind_of = |k: u8| KINDS[k as usize % 4];
         match &case.fault {
-            Fault::Truncate | Fault::EmptySource | Fault::ReadErr { .. } | Fault::ShortReads { .. } | Fault::Interrupts { .. } => {
+            Fault::Truncate | Fault::EmptySource | Fault::ReadErr { .. } | Fault::ShortReads { .. } | Fault::Interrupts { .. } | Fault::ShortInterrupts { .. } => {
                 let stream = t.build(&data)?;
                 // clean run
                 let (src, stats) = FaultReader::new(&stream, ReadScript::default());
@@ -435,6 +470,9 @@ impl Property for C05 {
                                     (m.offset + m.size, acc)
                                 })
                                 .collect()
+                        } else if case.xz_multi {
+                            // a cut at the end of the first stream (plus whole words of padding) leaves a complete file
+                            t.build_two_streams(&data)?.1
                         } else {
                             vec![]
                         };
@@ -602,6 +640,25 @@ impl Property for C05 {
                             Ok(o) if o == data => Ok(()),
                             Ok(o) => Err(Failure::new("short-reads-mismatch", format!("{}: {}", t.name(), first_diff(&o, &data)))),
                             Err(e) => Err(Failure::new("short-reads-rejected", format!("{} with reads of {:?} bytes: {e}", t.name(), cycle))),
+                        }
+                    }
+                    Fault::ShortInterrupts { cycle, every } => {
+                        obs.class("short_reads_and_interrupts");
+                        obs.keys.push(key(&stream, 12, cycle.len() * 8 + *every as usize));
+                        let (src, st) = FaultReader::new(
+                            &stream,
+                            ReadScript {
+                                max_per_call: cycle.iter().map(|&c| c as usize).collect(),
+                                interrupt_every: (*every as usize).max(2),
+                                ..Default::default()
+                            },
+                        );
+                        let r = no_panic("short-interrupted-read", || t.read_from(src, data.len(), &case.sizes, cap))?;
+                        obs.nontrivial = st.borrow().interrupts > 0;
+                        match r {
+                            Ok(o) if o == data => Ok(()),
+                            Ok(o) => Err(Failure::new("short-interrupted-mismatch", format!("{}: reads of {cycle:?} bytes, Interrupted every {every} calls: {}", t.name(), first_diff(&o, &data)))),
+                            Err(e) => Err(Failure::new("short-interrupted-rejected", format!("{}: reads of {cycle:?} bytes, Interrupted every {every} calls: {e}", t.name()))),
                         }
                     }
                     Fault::Interrupts { at } => {
